@@ -370,6 +370,11 @@ where
         }
     }
 
+    #[cfg(delaunay_verif)]
+    if crate::verif::fail("flip.before_mutation") {
+        return Err(FlipError::NeighborWiring { message: "verif failpoint".to_string() });
+    }
+
     for vertices in new_cell_vertices {
         let cell = Cell::new(vertices, None)?;
         let cell_key = tds
@@ -378,6 +383,11 @@ where
                 message: e.to_string(),
             })?;
         new_cells.push(cell_key);
+    }
+
+    #[cfg(delaunay_verif)]
+    if crate::verif::fail("flip.after_insert_cells") {
+        return Err(FlipError::NeighborWiring { message: "verif failpoint".to_string() });
     }
 
     let boundary_facets =
@@ -399,6 +409,11 @@ where
     .map_err(|e| FlipError::NeighborWiring {
         message: e.to_string(),
     })?;
+
+    #[cfg(delaunay_verif)]
+    if crate::verif::fail("flip.after_wiring") {
+        return Err(FlipError::NeighborWiring { message: "verif failpoint".to_string() });
+    }
 
     tds.remove_cells_by_keys(removed_cells);
     tds.normalize_coherent_orientation()
@@ -2621,6 +2636,11 @@ where
     };
     // Snapshot the pre-repair state so a failed attempt doesn't poison retries.
     let tds_snapshot = tds.clone();
+
+    #[cfg(delaunay_verif)]
+    if crate::verif::fail("repair.before_attempt1") {
+        return Err(FlipError::NeighborWiring { message: "verif failpoint".to_string() }.into());
+    }
 
     let attempt1_result = if D == 2 {
         repair_delaunay_with_flips_k2_attempt(tds, kernel, seed_cells, &attempt1)
